@@ -25,8 +25,7 @@ FAMILY = "nsfix"
 XSL = "http://www.w3.org/1999/XSL/Transform"
 XMLNS = "http://www.w3.org/XML/1998/namespace"
 URI_FIXED = {0: "", 1: XMLNS, 2: "http://www.w3.org/2000/xmlns/", 3: XSL}
-HAZARD_KEY = {"K3": "K3", "K16": "K16", "K17": "K17", "Shadow": "KN1", "Leak": "KN2", "Xmlish": "KN3",
-              "ElemUndecl": "KN4", "XmlPrefix": "KN5", "ElemEmptyNs": "KN6", "ExclDefault": "KN8"}
+HAZARD_KEY = {"K17": "K17", "ElemEmptyNs": "KN6"}
 # hazards that mark an erroneous / unmodelled stylesheet rather than a defect: never generated in oracle streams
 HAZARD_SKIP = {"DeclAttr", "Unsupported"}
 
@@ -232,8 +231,7 @@ class Sheet:
                 N.qname(n["name"]),
                 "+".join("%s=%d" % (N.pfx(p), uri_num(u)) for p, u in sc) or "_",
                 "+".join(str(uri_num(u)) for u in ex2 if u is not None) or "_",
-                "+".join(["-,x=%d" % uri_num(u) for p, u in n["ns"] if p == ""] +
-                         ["%s=%d" % (N.qname(q), v) for q, v in n["attrs"]]) or "_"))
+                "+".join("%s=%d" % (N.qname(q), v) for q, v in n["attrs"]) or "_"))
         for c in n["kids"]:
             self.emit_ops(c, sc, ex2)
         self.ops.append("E")
@@ -659,18 +657,20 @@ def corpus_trees():
     M = lambda name, nsattr, kids=(), ns=(): {"k": "elem", "name": name, "nsattr": nsattr, "ns": list(ns), "avt": False, "kids": list(kids)}
     S = lambda body, ns=(), excl=(): {"ns": list(ns), "excl": list(excl), "body": list(body)}
     return [
-        ("k3", "K3", S([M("a:e", "u4", [A("b:x", None, 1, [("b", "u4")])])])),
-        ("k16", "K16", S([M("xmlns:e", "u9")])),
+        ("k3", None, S([M("a:e", "u4", [A("b:x", None, 1, [("b", "u4")])])])),
+        ("k16", None, S([M("xmlns:e", "u9")])),
         ("k17", "K17", S([L("e", kids=[A("a", "u4", 1), A("a", "u5", 2), A("x:a", "u4", 3)])])),
-        ("kn1_shadow", "KN1", S([L("p:a", [("p", "u4")], [L("p:b", [("p", "u5")], [A("x", "u4", 1)])])])),
-        ("kn2_leak", "KN2", S([L("e", kids=[{"k": "text"}, A("a", "u4", 1), L("f")])])),
-        ("kn3_xmlish", "KN3", S([L("e", kids=[A("xmlq:a", None, 1, [("xmlq", "u4")])])])),
-        ("kn4_elem_undecl", "KN4", S([M("zz:e", "")])),
-        ("kn5_xml_prefix", "KN5", S([L("e", kids=[A("xml:a", "u4", 1)])])),
+        ("kn1_shadow", None, S([L("p:a", [("p", "u4")], [L("p:b", [("p", "u5")], [A("x", "u4", 1)])])])),
+        ("kn2_leak", None, S([L("e", kids=[{"k": "text"}, A("a", "u4", 1), L("f")])])),
+        ("kn3_xmlish", None, S([L("e", kids=[A("xmlq:a", None, 1, [("xmlq", "u4")])])])),
+        ("kn4_elem_undecl", None, S([M("zz:e", "")])),
+        ("kn5_xml_prefix", None, S([L("e", kids=[A("xml:a", "u4", 1)])])),
         ("kn6_elem_empty_ns", "KN6", S([M("p:e", "", ns=[("p", "u4")])])),
         ("kn7_excluded_rebound", "KN7", S([L("e", [("p", "u5")], [A("p:a", None, 3)])], ns=[("p", "u4")], excl=["p"])),
-        ("kn8_excl_default", "KN8", S([L("o", kids=[{"k": "lre", "name": "w:b", "ns": [("w", "u5"), ("", "u4")], "attrs": [],
+        ("kn8_excl_default", None, S([L("o", kids=[{"k": "lre", "name": "w:b", "ns": [("w", "u5"), ("", "u4")], "attrs": [],
                                                       "excl": ["#default"], "kids": []}])])),
+        # (the entries above with key None are the replays of the repaired defects K3, K16, KN1-KN5, KN8:
+        #  regression cases, a recurrence is a VIOLATION)
         # probed and fine
         ("ok_rebind", None, S([L("p:a", [("p", "u4")], [L("p:b", [("p", "u5")], [A("q:x", "u6", 1)])])])),
         ("ok_undeclare_default", None, S([L("e", [("", "u4")], [M("f", "")])])),
